@@ -113,6 +113,7 @@ func NewRenderContext(env *Environment, context map[string]interface{}, engine *
 	ctx.parent = nil
 	ctx.inParentCall = false
 	ctx.sandboxed = false
+	ctx.lastLoadedTemplate = nil
 
 	// Copy the context values directly
 	if context != nil {
@@ -289,6 +290,17 @@ func (ctx *RenderContext) GetVariableOrNil(name string) interface{} {
 // SetVariable sets a variable in the context
 func (ctx *RenderContext) SetVariable(name string, value interface{}) {
 	ctx.context[name] = value
+}
+
+// currentTemplateName returns the name of the template this context renders,
+// which is what relative template names are resolved against
+func (ctx *RenderContext) currentTemplateName() string {
+	for c := ctx; c != nil; c = c.parent {
+		if c.lastLoadedTemplate != nil && c.lastLoadedTemplate.name != "" {
+			return c.lastLoadedTemplate.name
+		}
+	}
+	return ""
 }
 
 // GetEnvironment returns the environment
